@@ -75,7 +75,9 @@ def run(ctx):
     long_lens = list(range(30, 75)) + [99, 100, 127, 128, 129, 130, 131] + ([] if quick else list(range(75, 99)) + list(range(132, 200)) + [255, 256, 257, 300])
     long_texts = ["a" * L for L in long_lens] + ["ab" * (L // 2) for L in long_lens[::3]]
     long_cls = [("all", None)] + [("last %d" % n, ("last", n, None)) for n in (1, 2, 3, 5, 8, 16, 31, 32, 33, 40, 64)] + \
-               [("skip %d take %d" % (a, b), ("take", a, b)) for a, b in ((0, 33), (31, 2), (32, 1), (33, 40), (64, 64))] + [("skip 40", ("skip", 40, None))]
+               [("skip %d take %d" % (a, b), ("take", a, b)) for a, b in ((0, 33), (31, 2), (32, 1), (33, 40), (64, 64))] + [("skip 40", ("skip", 40, None))] + \
+               [("top 010", ("take", 0, 10)), ("skip 012", ("skip", 12, None)), ("last 010", ("last", 10, None)), ("skip 010 take 02", ("take", 10, 2)), ("take 08", ("take", 0, 8)), ("top 09", ("take", 0, 9)),
+                ("skip 0100", ("skip", 100, None)), ("top 0012", ("take", 0, 12)), ("skip 00 take 011", ("take", 0, 11))]
     for b in ("'a'", "'ab' or 'a'"):
         for kind in ("find", "replace"):
             for ctext, spec in long_cls:
